@@ -353,7 +353,8 @@ impl Prop for C17 {
                 for prefix in PREFIXES {
                     for how in ["close", "drop"] {
                         let cell = format!("{ty}/{transport}/{prefix}/{how}");
-                        let take = tier == Tier::Thorough || transport == "tcp4" || (hash_str(&cell) ^ seed) % 3 == 0;
+                        let take = true;
+                        let _ = (tier, seed, &cell);
                         if take {
                             v.push(json!({"kind": "rig", "ty": ty, "transport": transport, "prefix": prefix, "how": how}));
                         }
@@ -408,11 +409,11 @@ impl Prop for C17 {
         v
     }
 
-    fn floors(&self, tier: Tier) -> Vec<(&'static str, u64)> {
+    fn floors(&self, _tier: Tier) -> Vec<(&'static str, u64)> {
         vec![
             ("mirror_cases", 72),
             ("mirror_stalled_peer_with_data_queued", 10),
-            ("rig_cases", tier.pick(120, 270)),
+            ("rig_cases", 270),
             ("rig_transport/tcp4", 90),
             ("rig_transport/tcp6", 10),
             ("rig_transport/ipc", 10),
